@@ -95,7 +95,54 @@ static void judge(Ctx& ctx, const Case& c, bool from_replay) {
   }
 }
 
+// ---- deep winding: N nested contours of one orientation (winding numbers up to +-N) and a small clip polygon inside
+// all of them; general position by construction (rings 9 units apart, no filter: it would be quadratic in 4N edges)
+static void judge_deep(Ctx& ctx, const Case& c, bool from_replay) {
+  const int N = (int)c.geti("N"); const bool cw = c.geti("cw") != 0; const int ct = (int)c.geti("ct"), fr = (int)c.geti("fr"); const bool rev = c.geti("rev") != 0;
+  Paths64 S; S.reserve((size_t)N);
+  for (int k = 0; k < N; ++k) { int64_t rad = 40 + 9 * (int64_t)k; Path64 p = gen::box(-rad - (k % 2), -rad, rad, rad + (k % 3), !cw); S.push_back(p); }
+  const Paths64& C = c.P("C");
+  Case cc = c; cc.p64["S"] = Paths64();   // the witness stays small: S is rebuilt from N
+  ctx.begin(c);
+  Clipper64 clipper; clipper.ReverseSolution(rev); clipper.AddSubject(S); clipper.AddClip(C);
+  Paths64 sol; bool ok = clipper.Execute((ClipType)ct, (FillRule)fr, sol);
+  ctx.evaluated();
+  if (!ok) { ctx.violation("C01.execute_false", { "deep_winding" }, c, "Execute returned false"); return; }
+  std::vector<Point64> pts;
+  for (int64_t d : { (int64_t)0, (int64_t)7, (int64_t)-9 }) pts.emplace_back(d, d / 2);                    // inside the clip polygon
+  pts.emplace_back(25, 30); pts.emplace_back(-30, -22);                                                    // inside every ring, outside the clip
+  for (int k : { 0, 1, 2, 3, N / 8, N / 4, N / 3, N / 2, N / 2 + 1, 3 * (N / 4), N - 4, N - 3, N - 2 }) if (k >= 0 && k + 1 < N) { int64_t rad = 40 + 9 * (int64_t)k + 5; pts.emplace_back(rad, (int64_t)1); pts.emplace_back((int64_t)-2, -rad); pts.emplace_back(-rad, (int64_t)3); }
+  { int64_t rad = 40 + 9 * (int64_t)N + 20; pts.emplace_back(rad, (int64_t)0); pts.emplace_back((int64_t)0, -rad); }
+  Paths64 in = concat(S, C); const ld tol = tol_of(max_abs_coord(in));
+  long long judged = 0;
+  for (const Point64& q : pts) {
+    if (min_dist_to_edges(in, q) < tol + 1) continue;
+    int expect = expected_cover(S, C, q, ct, fr, rev); bool on = false; int got = winding(sol, q, &on); ++judged;
+    if (on || got != expect) { ctx.violation("C01.region", { "deep_winding", expect == 0 ? "covered_but_should_not" : (got == 0 ? "not_covered" : "wrong_multiplicity") }, c,
+      "N=" + std::to_string(N) + " nested contours: at (" + std::to_string(q.x) + "," + std::to_string(q.y) + ") subject winding " + std::to_string(winding(S, q)) + ", solution winding " + std::to_string(got) + " expected " + std::to_string(expect)); return; }
+  }
+  ctx.count("deep_points_judged", judged); ctx.cmax("max_winding_depth", N);
+  if (!from_replay) ctx.note_case(c, judged >= 10);
+}
+
 void vf_case(Ctx& ctx, uint64_t i) {
+  if (ctx.optstr("mode", "gp") == "deep") {
+    static const int quickN[] = { 70, 130, 260, 520, 1030, 2050, 4100 };
+    const bool th = ctx.optint("deep_thorough", 0) != 0;
+    Case c;
+    if (!th) { c.seti("N", quickN[i % 7]); uint64_t v = i / 7;
+      c.seti("cw", (long long)(v & 1)); c.seti("fr", (long long)((v >> 1) & 3)); c.seti("ct", 1 + (long long)((v >> 3) & 3)); c.seti("rev", (long long)((v >> 5) & 1)); }
+    else {   // 27 expensive cases (the sweep is quadratic in the nesting depth): 8200 and 16390 rings x 3 winding-sensitive
+      // fill rules x both orientations x {Intersection, Difference}; 32780 rings x 3 combinations
+      if (i >= 27) return;
+      if (i < 24) { c.seti("N", i < 12 ? 8200 : 16390); uint64_t v = i % 12; c.seti("fr", 1 + (long long)(v % 3)); c.seti("cw", (long long)((v / 3) & 1)); c.seti("ct", (v / 6) ? 3 : 1); c.seti("rev", 0); }
+      else { static const int fr3[] = { 1, 3, 2 }, cw3[] = { 0, 1, 0 }, ct3[] = { 1, 1, 3 }; c.seti("N", 32780); c.seti("fr", fr3[i - 24]); c.seti("cw", cw3[i - 24]); c.seti("ct", ct3[i - 24]); c.seti("rev", 0); }
+    }
+    c.p64["C"] = Paths64{ Path64{ Point64(-13, -11), Point64(12, -9), Point64(14, 10), Point64(-11, 13) } };
+    c.set("deep", "1");
+    judge_deep(ctx, c, false);
+    return;
+  }
   int combo = (int)(i % 64);
   int magidx = (int)((i / 64) % gen::kNumMag);
   int maxexp = (int)ctx.optint("maxexp", 61);
@@ -113,7 +160,7 @@ void vf_case(Ctx& ctx, uint64_t i) {
   judge(ctx, c, false);
 }
 
-void vf_replay(Ctx& ctx, const Case& c) { judge(ctx, c, true); }
+void vf_replay(Ctx& ctx, const Case& c) { if (c.has("deep")) judge_deep(ctx, c, true); else judge(ctx, c, true); }
 
 void vf_end(Ctx& ctx) {
   ctx.count("gp_candidates_tried", g_gc.tries);
